@@ -282,7 +282,11 @@ def _owner(ctx, o):
     if len(ws) == 1 and isinstance(ws[0][1], ast.Name) and ws[0][1].id == wp:
         conds = acfg.conditions(acfg.node_of(ws[0][0]))
         other = [(t, p) for t, p in conds if not (match(f"{wp} is None", t) and not p or match(f"{wp} is not None", t) and p)]
-        if other:
+        inverted = [(t, p) for t, p in other if match(f"{wp} is None", t) and p or match(f"{wp} is not None", t) and not p]
+        if inverted:
+            o.refute(at, ws[0][0], ws[0][0], f"Task._attach stores the owner only when `{wp}` is None (inverted early return): a task "
+                                             f"attached to a WBS never reports it as owner")
+        elif other:
             o.undecided(at, ws[0][0], ws[0][0], "Task._attach stores the owner only under a condition the rule does not interpret")
         else:
             o.site(at, ws[0][0], "_attach: self.__wbs = wbs")
